@@ -61,7 +61,7 @@ def shards(tier, seed):
     n = 12 if tier == "quick" else 16
     for i in range(n):
         out.append({"name": f"sweep{i}", "kind": "sweep", "part": i, "parts": n,
-                    "subsets": 10 if tier == "quick" else 60, "routes": 12 if tier == "quick" else 40})
+                    "subsets": 10 if tier == "quick" else 400, "routes": 12 if tier == "quick" else 300})
     return out
 
 
